@@ -14,8 +14,10 @@ def base_history(rng, dbdir, opts):
         h.emit('flushmem')
     h.lines = body
     for _ in range(rng.range(4, 14)):
-        k = rng.below(12)
-        if k < 7:
+        k = rng.below(13)
+        if k == 12:
+            h.reopen()          # recovery and the MANIFEST roll-over of ldb_open under the fault; the open may fail
+        elif k < 7:
             h.write_some(rng.range(1, 3))
         elif k < 8:
             h.emit('flushmem')
@@ -26,6 +28,7 @@ def base_history(rng, dbdir, opts):
         else:
             h.iter_walk(5)
     h.lines = tail
+    h.emit('ensureopen %s %s' % (h.dir, h.opts))
     h.write_some(rng.range(1, 4))
     h.read_all(with_snaps=False)
     return h, pre, body, tail
